@@ -1039,3 +1039,23 @@ def pmfTable (sp : Spec) (rows : List (Answer × List PyVal)) : Bool :=
      | r :: _ => decide (0 < r.1.pmf.length) && rows.all (fun x => x.1.pmf.length == r.1.pmf.length))
 
 end Coba.C15
+
+namespace Coba.C15
+
+/-- number of columns of an un-hinted column-major answer (without the kwargs column) -/
+def ncols (sp : Spec) (a0 : Answer) : Nat :=
+  match sp.fmt with
+  | .AP => 2
+  | .PM => a0.pmf.length
+  | _ => 1
+
+/-- The FIRST column-major answer has a shape that can be read in one way only:
+* un-hinted: not a single column answering a single row (`[[a]]` is also the row-major answer whose row is the list
+  `[a]`), and a PMF has at least two columns (one column of probabilities has the shape of a column of actions);
+* hinted with kwargs: no kwargs key is named like the hint (`[{'pmf': …}, {'pmf': …}]` is also two hinted rows). -/
+def colFirstOK (sp : Spec) (a0 : Answer) (n : Nat) : Bool :=
+  if sp.fmt.hinted then !sp.kw || !a0.kwKeys.contains sp.fmt.hint
+  else (sp.fmt != .PM || decide (2 ≤ a0.pmf.length)) &&
+    !(ncols sp a0 + (if sp.kw then 1 else 0) == 1 && n == 1)
+
+end Coba.C15
